@@ -131,4 +131,32 @@ def replay(inputs, doc):
             A.atomic_write_bytes(final, data)
         ok = seen.get("tmp") == data
         return ok, "fault: raw write() is short; temp before install=%r, data=%r, final afterwards=%r" % (seen.get("tmp"), data, final.read_bytes())
+    # generic scenarios (these clauses hold on the unchanged tree; they let a seeded mutant be confirmed natively)
+    if ob.startswith("atomic_write_bytes") and "/post-exc:temp-left" in ob:
+        d = _scratch()
+        final = d / "final.json"
+        final.write_bytes(b"OLD")
+        exc = None
+        with mock.patch.object(os, "fsync", side_effect=OSError(5, "EIO")):
+            try:
+                A.atomic_write_bytes(final if "final_path:str" not in ob else str(final), _data(inputs))
+            except OSError as e:
+                exc = e
+        left = [n for n in _listing(d) if n != "final.json"]
+        return (not left), "fault: os.fsync raises EIO; raised=%r final=%r left-behind=%r" % (exc, final.read_bytes(), left)
+    if ob == "atomic_replace/post:installed-when-retries-positive":
+        d = _scratch()
+        final, tmp = d / "final.json", d / "final.json.tmp00001"
+        final.write_bytes(b"OLD")
+        tmp.write_bytes(b"NEW")
+        returned = False
+        with mock.patch.object(os, "replace", side_effect=PermissionError(13, "sharing violation")), \
+                mock.patch.object(A.time, "sleep", lambda s: None):
+            try:
+                A.atomic_replace(tmp, final, retries=min(max(1, int(inputs.get("retries", 3))), 5), backoff_ms=0)
+                returned = True
+            except OSError:
+                pass
+        ok = (not returned) or final.read_bytes() == b"NEW"
+        return ok, "fault: os.replace always raises PermissionError; returned normally=%r final=%r" % (returned, final.read_bytes())
     return True, "no scenario for %s" % ob
